@@ -173,8 +173,27 @@ def run(tier, rep, ev):
         for via in ("writestr", "writef"):
             traces.append(session(py7zr, ["plain.txt", s, "after.txt"], via))
             ev.case(("backslash", i, via))
+    # verdicts must not depend on what the session accepted before: every refused name right behind an accepted sibling that shares
+    # its directory part, in particular directory parts that resolve to the archive root ('./x' then './..'; seed C16-7)
+    hist = []
+    for n in names:
+        if n["spec"] is False and len(n["comps"]) >= 2:
+            sname = to_str(n)
+            sib = sname.rstrip("/").rsplit("/", 1)[0] + "/a"
+            if sib != sname and check_archive_path(sib):
+                hist.append([sib, sname])
+    hist = R.sample(hist, min(len(hist), 250 if tier == "quick" else 5000))
+    for dpart in (".", "a/..", "a/b/../..", "./.", "b/./..", "a/../.", "c:/.."):
+        hist.append([dpart + "/a", dpart + "/..", dpart + "/../b", dpart + "/b"])
+    for i, seq in enumerate(hist):
+        traces.append(session(py7zr, seq, "writestr" if i % 2 else "writef"))
+        ev.case(("hist", i))
+    ev.cov["history_sessions"] = len(hist)
     # random Unicode names with traversal shapes
-    alph = ["..", ".", "", "ä", "日本", "\U0001F600", " x", "c:", ".hidden", "a\tb", "dafj08sajfa", "a90sufoiasj09", "..."]
+    # (the last five: a code unit whose low byte is 00 directly behind a character below U+0100 - bytes `xx 00 00 yy` in UTF-16LE
+    # without any NUL character; seed C16-8)
+    alph = ["..", ".", "", "ä", "日本", "\U0001F600", " x", "c:", ".hidden", "a\tb", "dafj08sajfa", "a90sufoiasj09", "...",
+            "e\u0300", "x\u3000y", "é一", "a\u0100", "~\u2000"]
     for i in range(nsess):
         nm = []
         for _ in range(R.randrange(1, 6)):
